@@ -154,7 +154,7 @@ PROPS = {
                            'C09_uncounted: a cordoned node is in none of the working lists (so not in the capacity sum). Tie: hist correspondence on node-targeting calls + monitor. '
                            'The scale-from-zero size cache is filled from the first listed node before classification (finding T3, see DESIGN.md).',
                 level_note=LEVEL_NOTE),
-    'C10': dict(level='proof', module='EscProofs.P.C10', streams=hist('C10'),
+    'C10': dict(level='proof', module='EscProofs.P.C10', streams=hist('C10', focus='annot'),
                 aspects=['removals'], monitors=['C10'],
                 theorems=['Esc.P.C10_protected', 'Esc.P.C10_history', 'Esc.P.C10_empty_value_unprotected', 'Esc.P.C10_still_counted',
                           'Esc.P.C10_capacity_unchanged', 'Esc.P.C10_no_holdback'],
